@@ -27,7 +27,7 @@ def obligations(tier):
     obs = []
     nops = 2 if tier == "quick" else 3
     for impl in range(3):
-        nalpha = 13 if impl == 2 else 10
+        nalpha = 16 if impl == 2 else 12
         for first in range(nalpha):
             obs.append(mk(impl, first, nops, 17, nalpha, 4, ["C17-trie-rm-valueless", "C17-skiplist-header-notify"],
                           tmo=120))
